@@ -386,6 +386,10 @@ class AbstractPool:
                 system_config,
             )
 
+            # The worker replaces its last transaction state while compiling;
+            # if we never get to know with what (the call fails after that
+            # point), compile_in_tx() must not assume it can be reused.
+            worker._last_pickled_state = None
             result = await worker.call(
                 *preargs,
                 *compile_args,
@@ -453,6 +457,8 @@ class AbstractPool:
                 dbname = None
 
         try:
+            # See compile(): forget the last state until we know the new one.
+            worker._last_pickled_state = None
             units, new_pickled_state = await worker.call(
                 'compile_in_tx',
                 dbname,
@@ -1624,6 +1630,8 @@ class MultiTenantPool(FixedPool):
                     dbname = client_id = None
 
         try:
+            # See compile(): forget the last state until we know the new one.
+            worker._last_pickled_state = None
             units, new_pickled_state = await worker.call(
                 'compile_in_tx',
                 # multitenant_worker is also used in MultiSchemaPool for remote
